@@ -34,13 +34,20 @@ func (e *vpNEntry) Delta() uint64              { return 0 }
 func (e *vpNEntry) Operation() nats.KeyValueOp { return nats.KeyValuePut }
 
 type vpNWatcher struct {
-	ch      chan nats.KeyValueEntry
-	stopped int
+	ch          chan nats.KeyValueEntry
+	stopped     int
+	closeOnStop bool // as nats.go: unsubscribing closes the updates channel
 }
 
 func (w *vpNWatcher) Context() context.Context             { return nil }
 func (w *vpNWatcher) Updates() <-chan nats.KeyValueEntry   { return w.ch }
-func (w *vpNWatcher) Stop() error                          { w.stopped++; return nil }
+func (w *vpNWatcher) Stop() error {
+	w.stopped++
+	if w.closeOnStop && w.stopped == 1 {
+		close(w.ch)
+	}
+	return nil
+}
 func (w *vpNWatcher) Error() <-chan error                  { return nil }
 
 type vpNKV struct {
@@ -237,4 +244,38 @@ func vpH_C14_T_watch() {
 		vpAssert("C14.close-propagates", closedSeen)
 	}
 	vpAssert("C14.one-forwarder", vpThreadsAlive() <= 1)
+}
+
+// vpH_C14_T_watch_stop: the client's watcher has emitted up to 4 entries; the consumer takes some of them
+// (possibly none, possibly without ever calling Updates) and stops the watch. Whatever was still undelivered,
+// nothing of the watch is left behind: no forwarding goroutine survives the stop (watch cycles do not
+// accumulate goroutines), and the client's watcher was stopped exactly once.
+func vpH_C14_T_watch_stop() {
+	uw := &vpNWatcher{ch: make(chan nats.KeyValueEntry, 8), closeOnStop: true}
+	a := &natsWatcherAdapter{watcher: uw}
+	n := vpChoose("emitted", 5)
+	for i := 0; i < n; i++ {
+		uw.ch <- &vpNEntry{key: "g", rev: uint64(i + 1)}
+	}
+	taken := vpChoose("taken", n+1)
+	next := uint64(1)
+	for i := 0; i < taken; i++ {
+		select {
+		case e := <-a.Updates():
+			vpAssert("C14.in-order-once", e != nil && e.Revision() == next)
+			next++
+		case <-time.After(time.Second):
+			vpAssert("C14.in-order-once", false)
+		}
+	}
+	if taken == 0 && vpChoose("peek", 2) == 1 {
+		_ = a.Updates()
+	}
+	vpQuiesce()
+	a.Stop()
+	time.Sleep(time.Second)
+	vpQuiesce()
+	vpCover("C14.watch-stop")
+	vpAssert("C14.passthrough", uw.stopped == 1)
+	vpAssert("C14.no-goroutine-left", vpThreadsAlive() == 0)
 }
